@@ -1685,6 +1685,27 @@ def install(m):
             out.insert(pos, it)
         return out
 
+    def value_lt(m, x, y):
+        """Ord::lt for ints, strings/slices and tuples of them (lexicographic)."""
+        if isinstance(x, Ptr) and x.meta is None:
+            return value_lt(m, m.load(x), y)
+        if isinstance(y, Ptr) and y.meta is None:
+            return value_lt(m, x, m.load(y))
+        if isinstance(x, Int):
+            return m.binop('Lt', x, y)
+        if isinstance(x, Tuple):
+            alts = []
+            eqs = []
+            for p, q in zip(x.fields, y.fields):
+                alts.append(zand(*(eqs + [value_lt(m, p, q)])))
+                eqs.append(m.values_eq(m, p, q))
+            return zor(*alts)
+        if isinstance(x, Adt) and x.name == 'Cow':
+            return value_lt(m, x.fields[0], y.fields[0] if isinstance(y, Adt) else y)
+        return bytes_lt(elems_of(m, x), elems_of(m, y))
+
+    m.value_lt = value_lt
+
     @reg('sort', 'sort_unstable')
     def _sort(m, a, c, rt):
         p = a[0] if (isinstance(a[0], Ptr) and a[0].meta is not None) else fat(m, a[0], 'slice')
@@ -1693,9 +1714,7 @@ def install(m):
         items = cont.elems[s:s + n]
 
         def less(x, y):
-            if isinstance(x, Int):
-                return m.binop('Lt', x, y)
-            return bytes_lt(elems_of(m, x), elems_of(m, y))
+            return value_lt(m, x, y)
         cont.elems[s:s + n] = sort_list(m, items, less)
         return unit()
 
